@@ -36,11 +36,11 @@ def vm_call(result, args, ptys):
     return implrun.invoke(vm, "f", kw, limit=3)
 
 
-def lean_call(d, h, args, ptys):
+def lean_call(d, h, args, ptys, idx=0):
     toks = []
     for a, t in zip(args, ptys):
         toks.append("f:%d" % wasmrun.f32_bits(a) if t == "float" else "i:%d" % a)
-    return d.ask("wasmeval %s 0 %s" % (h, " ".join(toks)))
+    return d.ask("wasmeval %s %d %s" % (h, idx, " ".join(toks)))
 
 
 def explore(run, scale=1):
@@ -52,6 +52,13 @@ def explore(run, scale=1):
         ring = (i % 4 == 0)
         p = gen_wasm.gen_prog(rng, dict(ring=ring, uint=(i % 7 == 3), effects=(i % 3 == 1)))
         src = p.src()
+        if i % 5 == 2 and "uint" not in p.ptys:
+            # non-exported functions of the same signature before and after f (never called: calls are outside the subset):
+            # the export must still name f's own code
+            h1 = gen_wasm.Prog(p.ptys, p.ret, [], gen_wasm.gen_expr(rng, p.ret, p.ptys, 2)).src().replace("export function f(", "function g(")
+            h2 = gen_wasm.Prog(p.ptys, p.ret, [], gen_wasm.gen_expr(rng, p.ret, p.ptys, 1)).src().replace("export function f(", "function h(")
+            src = h1 + "\n" + src + "\n" + h2
+            run.count("subset:with-non-exported-functions")
         opt = (i % 2 == 1)
         res = wasmrun.compile_wasm(src, optimize=opt)
         if res[0] != "ok":
@@ -73,7 +80,7 @@ def explore(run, scale=1):
             inp = dict(source=src, optimize=opt, args=args)
             vm = vm_call(result, args, p.ptys)
             wt = wasmrun.wasmtime_call(bs, "f", [float(a) if t == "float" else (wasmrun.to_i32(a) if t == "uint" else a) for a, t in zip(args, p.ptys)])
-            ln = lean_call(d, h, args, p.ptys)
+            ln = lean_call(d, h, args, p.ptys, idx=(1 if src.startswith("function g(") else 0))
             # engine cross-check: wasmtime vs Lean evaluator (always)
             if wt[0] == "ok":
                 wv = ("f %d" % wasmrun.f32_bits(wt[1])) if isinstance(wt[1], float) else ("i %d" % wt[1]) if wt[1] is not None else "void"
